@@ -1,66 +1,524 @@
-use cardinalsin::metadata::{ColumnPredicate, ColumnStats, PredicateValue};
-use cardinalsin::query::{CacheConfig, QueryEngine, TieredCache};
-use cardinalsin::StorageConfig;
-use object_store::memory::InMemory;
-use serde_json::json;
-use std::collections::HashMap;
-use std::sync::Arc;
+//! csv-prune — correspondence + oracle for C12 (statistics-based chunk pruning
+//! never excludes a matching chunk).
+//!
+//! Leg A  ColumnPredicate::evaluate_against_stats (public) vs the extracted
+//!        Coq model on generated predicate trees x statistics; per case a
+//!        generated row set whose true min / max produced the statistics; the
+//!        oracle "pruned => no row within the statistics satisfies the
+//!        predicate" uses this harness's own row evaluator (eval.rs), which is
+//!        also compared with the model's `sat` / `in_stats` / `known_mixed`.
+//! Leg B  ObjectStoreMetadataClient::get_chunks_with_predicates on a catalog
+//!        seeded through save_chunk_metadata (statistics re-read after the JSON
+//!        round trip) vs the model's gate, same oracle per dropped chunk.
+//! Leg C  QueryEngine::extract_column_predicates on generated SQL vs the
+//!        model's `convert` (sql.rs).
+mod eval;
+mod gen;
+mod sql;
+mod types;
 
-fn stats1(min: serde_json::Value, max: serde_json::Value) -> HashMap<String, ColumnStats> {
-    let mut m = HashMap::new();
-    m.insert("v".to_string(), ColumnStats { min, max, has_nulls: false });
-    m
+use cardinalsin::ingester::ChunkMetadata;
+use cardinalsin::metadata::{MetadataClient, ObjectStoreMetadataClient, ObjectStoreMetadataConfig, TimeRange};
+use csv_common::{catch, Args, Model, Report, Rng};
+use eval::Tv;
+use gen::Case;
+use object_store::memory::InMemory;
+use serde_json::{json, Value};
+use std::panic::AssertUnwindSafe;
+use std::sync::Arc;
+use types::*;
+
+pub const KNOWN_CLASS: &str = "int-literal-int-stats-float-row";
+
+fn impl_eval(c: &Case) -> String {
+    let p = to_impl(&c.pred);
+    let st = to_impl_stats(&c.stats);
+    match catch(AssertUnwindSafe(|| p.evaluate_against_stats(&st))) {
+        Ok(b) => format!("e={}", b as u8),
+        Err(_) => "PANIC".into(),
+    }
+}
+
+/// the harness's own view of the rows: sat / in_stats / known, same layout as the model's answer
+fn rows_view(c: &Case) -> Vec<String> {
+    c.rows
+        .iter()
+        .map(|r| {
+            format!(
+                "{}/{}/{}",
+                eval::sat(&c.pred, r).ch(),
+                eval::in_stats(r, &c.stats) as u8,
+                eval::known_mixed(&c.pred, &c.stats, r) as u8
+            )
+        })
+        .collect()
+}
+
+struct AOut {
+    impl_out: String,
+    model_out: String,
+    verdict_differs: bool,
+    rows_differ: bool,
+    /// (row index, known class?) of rows that are within the statistics and satisfy the predicate of a pruned chunk
+    bad_rows: Vec<(usize, bool)>,
+}
+
+fn check_a(c: &Case, model: &mut Model) -> AOut {
+    let impl_out = impl_eval(c);
+    let line = c.line();
+    let model_out = model.ask(&line);
+    let mut verdict_differs = false;
+    let mut rows_differ = false;
+    if !model.is_null() {
+        let mut parts = model_out.split(' ');
+        let me = parts.next().unwrap_or("");
+        let _old = parts.next();
+        let mrows: Vec<String> = parts.map(|s| s.to_string()).collect();
+        verdict_differs = me != impl_out;
+        rows_differ = mrows != rows_view(c);
+    }
+    let mut bad_rows = Vec::new();
+    if impl_out == "e=0" {
+        for (i, r) in c.rows.iter().enumerate() {
+            if eval::in_stats(r, &c.stats) && eval::sat(&c.pred, r) == Tv::T {
+                bad_rows.push((i, eval::known_mixed(&c.pred, &c.stats, r)));
+            }
+        }
+    }
+    AOut { impl_out, model_out, verdict_differs, rows_differ, bad_rows }
+}
+
+/// candidates one step smaller than the case
+fn smaller(c: &Case) -> Vec<Case> {
+    let mut out = Vec::new();
+    fn subs(p: &Pred) -> Vec<Pred> {
+        match p {
+            Pred::And(a, b) | Pred::Or(a, b) => {
+                let mut v = vec![(**a).clone(), (**b).clone()];
+                for x in subs(a) {
+                    v.push(match p {
+                        Pred::And(_, _) => Pred::And(Box::new(x), b.clone()),
+                        _ => Pred::Or(Box::new(x), b.clone()),
+                    });
+                }
+                for x in subs(b) {
+                    v.push(match p {
+                        Pred::And(_, _) => Pred::And(a.clone(), Box::new(x)),
+                        _ => Pred::Or(a.clone(), Box::new(x)),
+                    });
+                }
+                v
+            }
+            Pred::Not(a) => {
+                let mut v = vec![(**a).clone()];
+                for x in subs(a) {
+                    v.push(Pred::Not(Box::new(x)));
+                }
+                v
+            }
+            Pred::In(c, vs) if vs.len() > 1 => (0..vs.len())
+                .map(|i| {
+                    let mut w = vs.clone();
+                    w.remove(i);
+                    Pred::In(*c, w)
+                })
+                .collect(),
+            _ => vec![],
+        }
+    }
+    for p in subs(&c.pred) {
+        out.push(Case { pred: p, ..c.clone() });
+    }
+    for i in 0..c.rows.len() {
+        let mut rows = c.rows.clone();
+        rows.remove(i);
+        out.push(Case { rows, ..c.clone() });
+    }
+    for i in 0..c.stats.len() {
+        let mut stats = c.stats.clone();
+        stats.remove(i);
+        out.push(Case { stats, ..c.clone() });
+    }
+    for (i, r) in c.rows.iter().enumerate() {
+        for j in 0..r.len() {
+            let mut rows = c.rows.clone();
+            rows[i].remove(j);
+            out.push(Case { rows, ..c.clone() });
+        }
+    }
+    out
+}
+
+fn shrink(c: &Case, fails: &mut dyn FnMut(&Case) -> bool) -> Case {
+    let mut cur = c.clone();
+    let mut budget = 400;
+    'outer: loop {
+        for cand in smaller(&cur) {
+            budget -= 1;
+            if budget <= 0 {
+                break 'outer;
+            }
+            if fails(&cand) {
+                cur = cand;
+                continue 'outer;
+            }
+        }
+        break;
+    }
+    cur
+}
+
+fn describe(c: &Case) -> Value {
+    json!({
+        "leg": "A",
+        "line": c.line(),
+        "predicate": format!("{:?}", to_impl(&c.pred)),
+        "stats": c.stats.iter().map(|s| json!({"column": cname(s.col), "min": s.min, "max": s.max})).collect::<Vec<_>>(),
+        "rows": c.rows.iter().map(|r| r.iter().map(|(k, v)| format!("{}={}", cname(*k), show_v(v))).collect::<Vec<_>>()).collect::<Vec<_>>(),
+    })
+}
+
+fn run_a(c: &Case, model: &mut Model, report: &mut Report, origin: &str) {
+    let o = check_a(c, model);
+    report.impl_runs += 1;
+    report.bump(&format!("A.origin.{}", origin));
+    report.bump(if o.impl_out == "e=0" { "A.verdict.prune" } else { "A.verdict.keep" });
+    let within_rows = c.rows.iter().filter(|r| eval::in_stats(r, &c.stats)).count();
+    if o.impl_out == "e=0" && within_rows > 0 {
+        report.bump("A.pruned_with_rows_within_stats");
+    }
+    let nontrivial = !c.stats.is_empty() && within_rows > 0;
+    let line = c.line();
+    report.case(if nontrivial { Some(&line) } else { None });
+    report.sample(json!({"leg": "A", "case": line, "impl": o.impl_out, "model": o.model_out}));
+    if o.verdict_differs || o.rows_differ {
+        let what = if o.verdict_differs {
+            "ColumnPredicate::evaluate_against_stats vs Model/StatsPrune.v eval_stats"
+        } else {
+            "row semantics: harness row evaluator / within / classifier vs Model/StatsPrune.v sat / in_statsb / known_mixed"
+        };
+        let vd = o.verdict_differs;
+        let s = shrink(c, &mut |k: &Case| {
+            let r = check_a(k, model);
+            if vd { r.verdict_differs } else { r.rows_differ }
+        });
+        let so = check_a(&s, model);
+        report.disagreement(json!({
+            "correspondence": what,
+            "case": describe(c), "impl": o.impl_out, "model": o.model_out,
+            "shrunk": describe(&s), "shrunk_impl": so.impl_out, "shrunk_model": so.model_out,
+            "harness_rows": rows_view(&s),
+            "oracle_failed": !o.bad_rows.is_empty(),
+        }));
+    }
+    if !o.bad_rows.is_empty() {
+        let all_known = o.bad_rows.iter().all(|(_, k)| *k);
+        let want_known = all_known;
+        let s = shrink(c, &mut |k: &Case| {
+            let r = check_a(k, model);
+            !r.bad_rows.is_empty() && r.bad_rows.iter().all(|(_, kn)| *kn) == want_known
+        });
+        let so = check_a(&s, model);
+        let (i, _) = so.bad_rows[0];
+        let class = if all_known { KNOWN_CLASS } else { "" };
+        report.bump(if all_known { "A.oracle.known_class" } else { "A.oracle.violation" });
+        report.oracle_violation(
+            class,
+            &format!(
+                "evaluate_against_stats pruned the chunk for {:?} although row {:?}, which lies within the statistics, satisfies it",
+                to_impl(&s.pred),
+                s.rows[i].iter().map(|(k, v)| format!("{}={}", cname(*k), show_v(v))).collect::<Vec<_>>()
+            ),
+            describe(&s),
+        );
+    }
+}
+
+/// Proof-derived corner cases that always run first.
+fn corpus() -> Vec<Case> {
+    let lines = [
+        // the repaired end points: stats [5,9], v <= 5, v >= 9, and their strict neighbours
+        "E le 2 i:5 1 2 I:5 I:9 0 2 1 2 i:5 1 2 i:9",
+        "E ge 2 i:9 1 2 I:5 I:9 0 2 1 2 i:5 1 2 i:9",
+        "E lt 2 i:5 1 2 I:5 I:9 0 2 1 2 i:5 1 2 i:9",
+        "E gt 2 i:9 1 2 I:5 I:9 0 2 1 2 i:5 1 2 i:9",
+        "E le 2 i:4 1 2 I:5 I:9 0 1 1 2 i:5",
+        "E ge 2 i:10 1 2 I:5 I:9 0 1 1 2 i:9",
+        "E bt 2 i:9 i:20 1 2 I:5 I:9 0 1 1 2 i:9",
+        "E bt 2 i:1 i:5 1 2 I:5 I:9 0 1 1 2 i:5",
+        "E in 2 2 i:4 i:9 1 2 I:5 I:9 0 1 1 2 i:9",
+        "E in 2 0 1 2 I:5 I:9 0 1 1 2 i:9",
+        // strings: end points, prefix order, byte order of multi-byte characters
+        "E le 5 s:61 1 5 S:61 S:63 0 1 1 5 s:61",
+        "E ge 5 s:63 1 5 S:61 S:63 0 1 1 5 s:63",
+        "E lt 5 s:6161 1 5 S:61 S:6162 0 2 1 5 s:61 1 5 s:6162",
+        "E eq 5 s:c3a9 1 5 S:61 S:7a 0 1 1 5 s:7a",
+        "E eq 5 s:3130 1 5 S:3130 S:39 0 2 1 5 s:3130 1 5 s:39",
+        // floats: signed zeros, NaN literal, infinities, statistics that became null (NaN / inf)
+        "E lt 3 f:0 1 3 F:9223372036854775808 F:4609434218613702656 0 1 1 3 f:9223372036854775808",
+        "E le 3 f:9223372036854775808 1 3 F:0 F:4609434218613702656 0 1 1 3 f:0",
+        "E eq 3 f:9221120237041090560 1 3 F:0 F:4609434218613702656 0 2 1 3 f:9221120237041090560 1 3 f:0",
+        "E ne 3 f:9221120237041090560 1 3 F:0 F:4609434218613702656 0 1 1 3 f:9221120237041090560",
+        "E gt 3 f:9218868437227405312 1 3 F:0 N 0 1 1 3 f:9218868437227405312",
+        "E lt 3 f:18442240474082181120 1 3 N F:0 0 1 1 3 f:18442240474082181120",
+        // Int x Float: float literal against integer statistics, integers above 2^53
+        "E gt 2 f:4845873199050653696 1 2 I:9007199254740992 I:9007199254740993 0 1 1 2 i:9007199254740993",
+        "E eq 2 f:4845873199050653696 1 2 I:9007199254740993 I:9007199254740993 0 1 1 2 i:9007199254740993",
+        "E lt 2 f:4845873199050653698 1 2 I:9007199254740995 I:9007199254740995 0 1 1 2 i:9007199254740995",
+        // u64 statistics above i64::MAX: integer literals cannot use them, float literals can
+        "E lt 4 i:5 1 4 I:18446744073709551615 I:18446744073709551615 0 1 1 4 i:18446744073709551615",
+        "E lt 4 f:4617315517961601024 1 4 I:18446744073709551615 I:18446744073709551615 0 1 1 4 i:18446744073709551615",
+        "E eq 4 i:9223372036854775807 1 4 I:9223372036854775807 I:9223372036854775808 0 1 1 4 i:9223372036854775807",
+        // the known class: integer statistics, integer literal, float row above 2^53
+        "E le 3 i:9007199254740995 1 3 I:9007199254740996 I:9007199254740996 0 1 1 3 f:4845873199050653698",
+        // missing / mistyped statistics, NULL rows, NOT over a pruning child, literals of another class
+        "E lt 2 i:5 0 1 1 2 i:1",
+        "E lt 2 i:5 1 2 N I:9 0 1 1 2 i:1",
+        "E lt 2 i:5 1 2 S:61 S:62 0 1 1 2 i:1",
+        "E lt 2 i:5 1 2 B1 O 0 1 1 2 i:1",
+        "E not gt 2 i:9 1 2 I:5 I:9 0 1 1 2 i:5",
+        "E and gt 2 i:9 ne 2 i:1 1 2 I:5 I:9 1 2 1 2 n 1 2 i:7",
+        "E or gt 2 i:9 lt 2 i:5 1 2 I:5 I:9 0 1 1 2 i:7",
+        "E eq 2 s:37 1 2 I:5 I:9 0 1 1 2 i:7",
+        "E eq 2 b:1 1 2 I:5 I:9 0 1 1 2 i:7",
+        "E lt 2 n 1 2 I:5 I:9 0 1 1 2 i:7",
+        "E nin 2 1 i:7 1 2 I:7 I:7 0 1 1 2 i:7",
+    ];
+    lines.iter().map(|l| Case::parse(l)).collect()
+}
+
+// ------------------------------------------------------------- leg B ----
+const H: i64 = 3_600_000_000_000;
+
+struct CatCase {
+    preds: Vec<Pred>,
+    chunks: Vec<(Vec<Stat>, Vec<Row>)>,
+}
+
+impl CatCase {
+    fn text(&self) -> String {
+        let ps = self.preds.iter().map(show_pred).collect::<Vec<_>>().join(" ; ");
+        let cs = self.chunks.iter().map(|(s, r)| format!("{} | {}", show_stats(s), show_rows(r))).collect::<Vec<_>>().join(" # ");
+        format!("{} @ {}", ps, cs)
+    }
+    fn parse(t: &str) -> CatCase {
+        let (ps, cs) = t.split_once(" @ ").unwrap_or((t, ""));
+        let preds = ps.split(" ; ").filter(|s| !s.trim().is_empty()).map(|s| parse_pred(&mut Toks::new(s))).collect();
+        let chunks = cs
+            .split(" # ")
+            .filter(|s| !s.trim().is_empty())
+            .map(|c| {
+                let (s, r) = c.split_once(" | ").unwrap();
+                (parse_stats(&mut Toks::new(s)), parse_rows(&mut Toks::new(r)))
+            })
+            .collect();
+        CatCase { preds, chunks }
+    }
+}
+
+struct BOut {
+    impl_out: String,
+    model_out: String,
+    reloaded: Vec<Vec<Stat>>,
+    /// (chunk, row, known) for dropped chunks holding a row within the statistics that satisfies every predicate
+    bad: Vec<(usize, usize, bool)>,
+}
+
+fn run_catalog(rt: &tokio::runtime::Runtime, cc: &CatCase, model: &mut Model, fresh_reader: bool) -> BOut {
+    let store: Arc<dyn object_store::ObjectStore> = Arc::new(InMemory::new());
+    let cfg = ObjectStoreMetadataConfig { bucket: "b".into(), metadata_prefix: "metadata/".into(), enable_cache: true, allow_unsafe_overwrite: false };
+    let client = ObjectStoreMetadataClient::new(store.clone(), cfg.clone());
+    let res = catch(AssertUnwindSafe(|| {
+        rt.block_on(async {
+            for (i, _) in cc.chunks.iter().enumerate() {
+                let path = format!("chunk_{}.parquet", i);
+                let m = ChunkMetadata { path: path.clone(), min_timestamp: 10 + i as i64, max_timestamp: H / 2 + i as i64, row_count: 1, size_bytes: 1 };
+                client.register_chunk(&path, &m).await.map_err(|e| e.to_string())?;
+            }
+            let mut all = client.load_chunk_metadata().await.map_err(|e| e.to_string())?;
+            for (i, (st, _)) in cc.chunks.iter().enumerate() {
+                if let Some(ext) = all.get_mut(&format!("chunk_{}.parquet", i)) {
+                    ext.column_stats = to_impl_stats(st);
+                }
+            }
+            client.save_chunk_metadata(&all).await.map_err(|e| e.to_string())?;
+            let reader = if fresh_reader { ObjectStoreMetadataClient::new(store.clone(), cfg.clone()) } else { client };
+            let back = reader.load_chunk_metadata().await.map_err(|e| e.to_string())?;
+            let preds: Vec<_> = cc.preds.iter().map(to_impl).collect();
+            let got = reader.get_chunks_with_predicates(TimeRange::new(0, H), &preds).await.map_err(|e| e.to_string())?;
+            let mut ids: Vec<usize> = got.iter().map(|e| e.chunk_path.trim_start_matches("chunk_").trim_end_matches(".parquet").parse().unwrap_or(999)).collect();
+            ids.sort();
+            let reloaded: Vec<Vec<Stat>> = (0..cc.chunks.len())
+                .map(|i| back.get(&format!("chunk_{}.parquet", i)).map(|e| from_impl_stats(&e.column_stats)).unwrap_or_default())
+                .collect();
+            Ok::<_, String>((ids, reloaded))
+        })
+    }));
+    let (impl_out, ids, reloaded) = match res {
+        Ok(Ok((ids, reloaded))) => (ids.iter().map(|i| i.to_string()).collect::<Vec<_>>().join(","), ids, reloaded),
+        Ok(Err(e)) => (format!("ERR {}", e), vec![], vec![]),
+        Err(_) => ("PANIC".to_string(), vec![], vec![]),
+    };
+    let mut kept = Vec::new();
+    if !reloaded.is_empty() {
+        for (i, st) in reloaded.iter().enumerate() {
+            let line = format!("G {} {} {}", cc.preds.len(), cc.preds.iter().map(show_pred).collect::<Vec<_>>().join(" "), show_stats(st));
+            if model.ask(&line) == "1" {
+                kept.push(i.to_string());
+            }
+        }
+    }
+    let model_out = kept.join(",");
+    let mut bad = Vec::new();
+    for (i, (_, rows)) in cc.chunks.iter().enumerate() {
+        if reloaded.is_empty() || ids.contains(&i) {
+            continue;
+        }
+        for (j, r) in rows.iter().enumerate() {
+            if eval::in_stats(r, &reloaded[i]) && cc.preds.iter().all(|p| eval::sat(p, r) == Tv::T) {
+                bad.push((i, j, cc.preds.iter().any(|p| eval::known_mixed(p, &reloaded[i], r))));
+            }
+        }
+    }
+    BOut { impl_out, model_out, reloaded, bad }
+}
+
+fn gen_catalog(rng: &mut Rng, report: &mut Report) -> CatCase {
+    let doms = gen::gen_columns(rng);
+    let n = rng.range_usize(1, 4);
+    let chunks = (0..n)
+        .map(|_| {
+            let rows = gen::gen_rows(rng, &doms, report);
+            let stats = gen::gen_stats(rng, &doms, &rows, report);
+            (stats, rows)
+        })
+        .collect();
+    let np = rng.range_usize(0, 3);
+    let preds = (0..np)
+        .map(|_| {
+            let d = *rng.pick(&[0u32, 1, 1, 2]);
+            gen::gen_pred(rng, &doms, d, report)
+        })
+        .collect();
+    CatCase { preds, chunks }
+}
+
+fn run_b(rt: &tokio::runtime::Runtime, cc: &CatCase, model: &mut Model, report: &mut Report, fresh: bool) {
+    let o = run_catalog(rt, cc, model, fresh);
+    report.impl_runs += 1;
+    let text = cc.text();
+    report.bump("B.catalog_cases");
+    report.bump_by("B.chunks", cc.chunks.len() as u64);
+    let dropped = cc.chunks.len() - o.impl_out.split(',').filter(|s| !s.is_empty()).count().min(cc.chunks.len());
+    report.bump_by("B.chunks_dropped", dropped as u64);
+    for (i, (st, _)) in cc.chunks.iter().enumerate() {
+        if let Some(r) = o.reloaded.get(i) {
+            let before = show_stats(&from_impl_stats(&to_impl_stats(st)));
+            if before != show_stats(r) {
+                report.bump("B.stats_changed_by_json_round_trip");
+            }
+        }
+    }
+    report.case(if !cc.preds.is_empty() && cc.chunks.iter().any(|(s, _)| !s.is_empty()) { Some(&text) } else { None });
+    report.sample(json!({"leg": "B", "case": text, "impl_kept": o.impl_out, "model_kept": o.model_out}));
+    if !model.is_null() && o.impl_out != o.model_out {
+        report.disagreement(json!({
+            "correspondence": "ObjectStoreMetadataClient::get_chunks_with_predicates (catalog seeded through save_chunk_metadata) vs Model/StatsPrune.v gate",
+            "case": {"leg": "B", "text": text}, "impl": o.impl_out, "model": o.model_out, "shrunk": text,
+            "oracle_failed": !o.bad.is_empty(),
+        }));
+    }
+    if !o.bad.is_empty() {
+        let all_known = o.bad.iter().all(|(_, _, k)| *k);
+        let (ci, ri, _) = o.bad[0];
+        report.oracle_violation(
+            if all_known { KNOWN_CLASS } else { "" },
+            &format!(
+                "get_chunks_with_predicates dropped chunk_{} for {:?} although its row {:?} lies within the statistics and satisfies every predicate",
+                ci,
+                cc.preds.iter().map(to_impl).collect::<Vec<_>>(),
+                cc.chunks[ci].1[ri].iter().map(|(k, v)| format!("{}={}", cname(*k), show_v(v))).collect::<Vec<_>>()
+            ),
+            json!({"leg": "B", "text": text}),
+        );
+    }
+}
+
+fn corpus_b() -> Vec<CatCase> {
+    [
+        "le 2 i:5 @ 1 2 I:5 I:9 0 | 1 1 2 i:5 # 1 2 I:6 I:9 0 | 1 1 2 i:6 # 0 | 1 1 2 i:1",
+        "ge 2 i:9 ; eq 5 s:637075 @ 2 2 I:5 I:9 0 5 S:637075 S:637075 0 | 1 2 2 i:9 5 s:637075 # 2 2 I:5 I:9 0 5 S:6d656d S:6d656d 0 | 1 2 2 i:9 5 s:6d656d",
+        "gt 3 f:4609434218613702656 @ 1 3 F:0 F:4609434218613702656 0 | 1 1 3 f:4609434218613702656 # 1 3 F:0 F:4611686018427387904 0 | 1 1 3 f:4611686018427387904",
+        "lt 4 f:4617315517961601024 @ 1 4 I:18446744073709551615 I:18446744073709551615 0 | 1 1 4 i:18446744073709551615",
+        " @ 1 2 I:5 I:9 0 | 1 1 2 i:5",
+    ]
+    .iter()
+    .map(|t| CatCase::parse(t))
+    .collect()
 }
 
 fn main() {
+    let args = Args::parse();
+    csv_common::quiet_panics();
     let rt = tokio::runtime::Builder::new_current_thread().enable_all().build().unwrap();
-    let s = stats1(json!(5), json!(9));
-    for (name, p) in [
-        ("v <= 5", ColumnPredicate::LtEq("v".into(), PredicateValue::Int64(5))),
-        ("v >= 9", ColumnPredicate::GtEq("v".into(), PredicateValue::Int64(9))),
-        ("v < 5", ColumnPredicate::Lt("v".into(), PredicateValue::Int64(5))),
-        ("v > 9", ColumnPredicate::Gt("v".into(), PredicateValue::Int64(9))),
-        ("v <= 4", ColumnPredicate::LtEq("v".into(), PredicateValue::Int64(4))),
-    ] {
-        println!("stats [5,9] {} -> {}", name, p.evaluate_against_stats(&s));
-    }
-    // int stats above 2^53, int literal, float row
-    let s = stats1(json!(9007199254740996i64), json!(9007199254740996i64));
-    let p = ColumnPredicate::LtEq("v".into(), PredicateValue::Int64(9007199254740995));
-    println!("stats [2^53+4,2^53+4] v <= 2^53+3 -> {}", p.evaluate_against_stats(&s));
-    println!("json!(2.0) = {:?} is_f64 {} ; json!(NaN) = {:?}; json!(-0.0) = {}", json!(2.0f64), json!(2.0f64).is_f64(), json!(f64::NAN), json!(-0.0f64));
-    println!("u64 big as_i64 {:?} as_f64 {:?}", json!(u64::MAX).as_i64(), json!(u64::MAX).as_f64());
+    let mut model = Model::spawn(&args.model);
+    let mut report = Report::new("C12");
+    report.max_samples = 6;
 
-    rt.block_on(async {
-        let dir = tempfile::tempdir().unwrap();
-        let cache = Arc::new(TieredCache::new(CacheConfig { l1_size: 1 << 20, l2_size: 1 << 20, l2_dir: Some(dir.path().to_str().unwrap().to_string()) }).await.unwrap());
-        let engine = QueryEngine::new(Arc::new(InMemory::new()), cache, &StorageConfig::default()).await.unwrap();
-        for sql in [
-            "SELECT * FROM metrics WHERE value_i64 NOT BETWEEN 10 AND 20",
-            "SELECT * FROM metrics WHERE value_i64 BETWEEN 10 AND 20",
-            "SELECT * FROM metrics WHERE NOT (value_i64 > 5)",
-            "SELECT * FROM metrics WHERE value_i64 NOT IN (1, 2)",
-            "SELECT * FROM metrics WHERE value_i64 <= -5 AND (host = 'a' OR value_f64 > 1.5)",
-            "SELECT * FROM metrics WHERE value_f64 <= 9007199254740995",
-            "SELECT * FROM metrics WHERE value_i64 = 18446744073709551615",
-            "SELECT * FROM metrics WHERE value_i64 = NULL OR host = true",
-            "SELECT * FROM metrics WHERE host NOT LIKE 'a%' AND value_i64 > 1",
-            "SELECT * FROM (SELECT -value_i64 AS value_i64 FROM metrics) WHERE value_i64 > 5",
-            "SELECT host, count(*) AS value_i64 FROM metrics GROUP BY host HAVING count(*) > 5",
-        ] {
-            println!("{} => {:?}", sql, engine.extract_column_predicates(sql).await);
-        }
-        let ctx = datafusion::prelude::SessionContext::new();
-        for sql in [
-            "SELECT CAST(9007199254740996 AS DOUBLE) <= 9007199254740995",
-            "SELECT CAST(9007199254740993 AS BIGINT) = CAST(9007199254740992 AS DOUBLE)",
-            "SELECT CAST('NaN' AS DOUBLE) > 5.0, CAST('NaN' AS DOUBLE) = CAST('NaN' AS DOUBLE), CAST(-0.0 AS DOUBLE) = CAST(0.0 AS DOUBLE)",
-            "SELECT 10 < '9', 'abc' = 5",
-        ] {
-            match ctx.sql(sql).await {
-                Ok(df) => println!("{} => {:?}", sql, df.collect().await.map(|b| datafusion::arrow::util::pretty::pretty_format_batches(&b).unwrap().to_string())),
-                Err(e) => println!("{} => plan error {}", sql, e),
+    if let Some(path) = &args.replay {
+        let txt = std::fs::read_to_string(path).expect("replay file");
+        let v: Value = serde_json::from_str(&txt).expect("replay json");
+        let v = if v.get("leg").is_some() { v } else { v.get("case").cloned().unwrap_or(v) };
+        let leg = v["leg"].as_str().unwrap_or("A").to_string();
+        let failed = match leg.as_str() {
+            "A" => {
+                let c = Case::parse(v["line"].as_str().expect("line"));
+                let o = check_a(&c, &mut model);
+                println!("case  : {}\nimpl  : {}\nmodel : {}\nharness rows: {:?}\nrows within the statistics that satisfy the predicate of a pruned chunk: {:?}", c.line(), o.impl_out, o.model_out, rows_view(&c), o.bad_rows);
+                o.verdict_differs || o.rows_differ || !o.bad_rows.is_empty()
             }
-        }
-    });
+            "B" => {
+                let cc = CatCase::parse(v["text"].as_str().expect("text"));
+                let o = run_catalog(&rt, &cc, &mut model, true);
+                println!("case  : {}\nimpl kept : {}\nmodel kept: {}\nviolating (chunk,row,known): {:?}", cc.text(), o.impl_out, o.model_out, o.bad);
+                (!model.is_null() && o.impl_out != o.model_out) || !o.bad.is_empty()
+            }
+            _ => {
+                let e = sql::parse_expr(&mut Toks::new(v["expr"].as_str().expect("expr")));
+                let eng = sql::Engine::new(&rt);
+                let o = sql::check_c(&rt, &eng, &e, &mut model);
+                println!("sql   : {}\nimpl  : {}\nmodel : {}", sql::to_sql(&e), o.impl_out, o.model_out);
+                o.differs
+            }
+        };
+        std::process::exit(if failed { 1 } else { 0 });
+    }
+
+    let thorough = args.thorough();
+    let (n_a, n_b, n_c) = if thorough { (150_000, 6_000, 8_000) } else { (6_000, 400, 600) };
+    let mut rng = Rng::new(args.seed);
+
+    // leg A
+    for c in corpus() {
+        run_a(&c, &mut model, &mut report, "corpus");
+    }
+    for _ in 0..n_a {
+        let mut r = rng.fork();
+        let c = gen::gen_case(&mut r, &mut report);
+        run_a(&c, &mut model, &mut report, "random");
+    }
+    // leg B
+    for (i, cc) in corpus_b().iter().enumerate() {
+        run_b(&rt, cc, &mut model, &mut report, i % 2 == 0);
+    }
+    for i in 0..n_b {
+        let mut r = rng.fork();
+        let cc = gen_catalog(&mut r, &mut report);
+        run_b(&rt, &cc, &mut model, &mut report, i % 2 == 0);
+    }
+    // leg C
+    sql::run_c(&rt, &mut rng, n_c, &mut model, &mut report);
+
+    report.notes.push(format!("model calls: {}", model.calls));
+    report.write(&args.out);
 }
